@@ -559,7 +559,7 @@ pub fn gen_histories(rec: &mut Recorder, rng: &mut StdRng, n: usize) {
     let project = |c: &HashMapContext<DefaultNumericTypes>, log: &Log| project_hashmap(c, &probe, log).unwrap_or_else(|e| json!({"error": e}));
     // a few expressions are precompiled ONCE and the same trees are evaluated again and again while the contexts change under
     // them (functions bound, re-bound and cleared, the switch toggled, clones): a tree must not remember a context
-    let fixed_sources = ["max(1, 2)", "f(2)", "v0", "len(\"ab\")", "max(v1, 2) + 1", "v0(3)", "min(2, 1), max 5"];
+    let fixed_sources = ["max(1, 2)", "f(2)", "v0", "len(\"ab\")", "max(v1, 2), typeof(v1)", "v0(3)", "min(2, 1), max 5"];
     let fixed_trees: Vec<Option<Tree>> = fixed_sources.iter().map(|s| build_operator_tree::<DefaultNumericTypes>(s).ok()).collect();
     for k in 0..n {
         if k % 200 == 0 {
@@ -752,7 +752,8 @@ pub fn gen_threads(rec: &mut Recorder, rng: &mut StdRng, iters: usize, nthreads:
     // operands of the float primitives the fixed sources below need
     rec.ints.extend(0..8);
     rec.floats.extend([1.5, 2.5, 1.0, 3.0]);
-    rec.words.extend(["1.5".to_string(), "2.5".to_string()]);
+    rec.words.extend(["1.5", "2.5", "1e-3", "2.5e+2", "1E+2", "1e", "2.5e", "1E"].iter().map(|s| s.to_string()));
+    rec.floats.extend([1e-3, 2.5e+2, 1e2]);
     let mut c = HashMapContext::<DefaultNumericTypes>::new();
     for (n, b, v) in &behaviours {
         c.set_function(n.clone(), make_function(n, b, Some(v.clone()), &log)).unwrap();
@@ -776,7 +777,10 @@ pub fn gen_threads(rec: &mut Recorder, rng: &mut StdRng, iters: usize, nthreads:
                                     "(s1, x) == (s1, x)", "s1 < s2, s2 < s1", "typeof(x), typeof(1.5), typeof(true), typeof(())",
                                     // float primitives on different operands from different threads (a memo behind `^` / math::)
                                     "x ^ 2", "2 ^ x", "1.5 ^ x", "math::pow(x, 3)", "math::pow(2.5, x)", "x * 1.5, x / 2.5, x % 3",
-                                    "math::ln(x + 1), math::exp(x)", "math::sin(x), math::cos(x + 1)", "math::atan2(x, 2), math::hypot(x, 3)"]
+                                    "math::ln(x + 1), math::exp(x)", "math::sin(x), math::cos(x + 1)", "math::atan2(x, 2), math::hypot(x, 3)",
+                                    // literals whose tokenisation joins three pieces, strings with escapes, comments: the string-level
+                                    // entry points tokenise concurrently
+                                    "1e-3 + x", "2.5e+2 * x", "x + 1E+2", "\"a\\\"b\" + s1", "x /* c */ + 0x1f", "len(\"\\\\\") + x // t"]
         .iter()
         .map(|s| s.to_string())
         .collect();
